@@ -137,20 +137,25 @@ def msg_commb(ac, tr, t, rng_bits):
     kind = (rng_bits >> 13) % 8
     h = hdg if hdg <= 180 else hdg - 360
     tas = min(gs + ((rng_bits >> 20) % 40) - 20, 590)
+    # each field of a register is individually "not available" now and then
+    # (status bit 0, value bits 0)
+    def opt(v, k):
+        return None if ((rng_bits >> (40 + k)) & 7) == 0 else v
     if kind in (0, 1):
         roll = ((rng_bits >> 16) % 60) - 30.0
-        mb = R.mb_bds50(roll, h, gs, ((rng_bits >> 24) % 9 - 4) * 0.25, max(tas, 0))
+        mb = R.mb_bds50(opt(roll, 0), opt(h, 3), opt(gs, 6), opt(((rng_bits >> 24) % 9 - 4) * 0.25, 9), opt(max(tas, 0), 12))
     elif kind in (2, 3):
         # plausible IAS/Mach pair: derive both from TAS and altitude roughly
         a = max(alt, 0)
         mach = min(0.95, max(0.05, tas / (661.5 * math.sqrt(max(0.3, 1 - 6.875e-6 * a)))))
         sigma = (1 - 6.875e-6 * min(a, 36000)) ** 4.256
         ias = min(450, tas * math.sqrt(sigma))
-        mb = R.mb_bds60(h, ias, mach, vr, vr + ((rng_bits >> 16) % 5 - 2) * 32)
+        mb = R.mb_bds60(opt(h, 0), opt(ias, 3), opt(mach, 6), opt(vr, 9), opt(vr + ((rng_bits >> 16) % 5 - 2) * 32, 12))
     elif kind == 4:
         mb = R.mb_bds20(ac["call"])
     elif kind == 5:
-        mb = R.mb_bds40((int(alt) // 16) * 16, None if (rng_bits >> 16) & 1 else (int(alt) // 16) * 16, 1013.2)
+        mb = R.mb_bds40(opt((int(max(alt, 0)) // 16) * 16, 0), None if (rng_bits >> 16) & 1 else (int(max(alt, 0)) // 16) * 16,
+                        opt(1013.2 + ((rng_bits >> 20) % 300 - 150) * 0.1, 3))
     elif kind == 6:
         mb = R.mb_bds10((rng_bits >> 16) & ((1 << 48) - 1))
     else:
